@@ -118,6 +118,17 @@ func (w *world) Run(t *rt.Tape, trace bool) *core.Result {
 		smp.Delays = append(smp.Delays, fmt.Sprintf("p%d: its address is in use at its first Join, which fails; it joins again", busy))
 		res.Reach = map[string]int{"fail-then-carry-on": 1}
 	}
+	// One case in eight: the operator of one party loses patience - if its Connect has not returned
+	// after a while (another party may be hours late), the party's network is closed under it,
+	// the only way the API offers to stop waiting. Connect may then fail; what it must not do is
+	// return nil with connections missing. Nothing else is judged in such a run.
+	giveUp, patience := -1, time.Duration(0)
+	gaveUp := false
+	if busy < 0 && t.Choose(rt.SGen, 8) == 0 {
+		giveUp = t.Choose(rt.SGen, n)
+		patience = []time.Duration{time.Millisecond, 50 * time.Millisecond, 2 * time.Second, time.Minute}[t.Choose(rt.SGen, 4)]
+		smp.Delays = append(smp.Delays, fmt.Sprintf("p%d: closes its network if Connect has not returned after %v", giveUp, patience))
+	}
 	res.Sample = smp
 	res.Class = fmt.Sprintf("n=%d k=%d", n, k)
 
@@ -152,7 +163,19 @@ func (w *world) Run(t *rt.Tape, trace bool) *core.Result {
 				}
 				rt.Sleep(connDelay[p.id])
 				rt.Tracef("HARNESS party %d: calling Connect", p.id)
+				returned := false
+				if p.id == giveUp {
+					rt.GoParty(fmt.Sprintf("p%d", p.id), "operator", func() {
+						rt.Sleep(patience)
+						if !returned {
+							gaveUp = true
+							rt.Reach("operator-closed-the-network-under-a-waiting-Connect")
+							p.nw.Close()
+						}
+					})
+				}
 				p.connectErr = p.nw.Connect()
+				returned = true
 				rt.Tracef("HARNESS party %d: Connect returned err=%v with %d peers", p.id, p.connectErr, len(p.nw.Peers))
 				if p.connectErr != nil {
 					return
@@ -236,8 +259,26 @@ func (w *world) Run(t *rt.Tape, trace bool) *core.Result {
 		res.Fail = &core.Failure{Clause: clause, Detail: detail}
 		return res
 	}
-	if len(rr.Crashed) > 0 {
+	if len(rr.Crashed) > 0 && !gaveUp {
 		return fail("panic", core.CrashDetail(rr))
+	}
+	if gaveUp {
+		// (Close is not synchronised with a running Connect: the abandoned party may crash in a send
+		// on its closed connections. The property does not speak about that use; the run is judged only
+		// for the one thing it does speak about.)
+		if len(rr.Crashed) > 0 {
+			res.Reach["abandoned run: a task of the closing party crashed (not judged)"]++
+		}
+		// the mesh was abandoned by one of its parties: errors (a Join that finds nobody, a Connect
+		// that fails) and parties left waiting are what that means; only a Connect that claims success
+		// on an incomplete mesh is a violation
+		for _, p := range ps {
+			if p.missing != "" {
+				return fail("incomplete-at-connect-return", "(one party's operator closed its network while its Connect was waiting) "+p.missing)
+			}
+		}
+		res.Reach["run abandoned by an operator (only Connect's claim is judged)"]++
+		return res
 	}
 	for _, p := range ps {
 		if p.joinErr != nil {
